@@ -355,6 +355,35 @@ func probeInMemoryBucket() string {
 			return fmt.Sprintf("FAIL another connection of the process sees %d rows under prefix %d (expected 1): the connections are not on one bucket", c, i)
 		}
 	}
+	// the in-memory bucket belongs to the process, not to the table that happened to use it first:
+	// after the writers' tables are dropped (the first user among them) the reader still reads, and
+	// a new connection can still create, write and read an in-memory table
+	for i := 0; i < n; i++ {
+		if _, err := conns[i].Exec(fmt.Sprintf("drop table im%d_%d", run, i)); err != nil {
+			return fmt.Sprintf("FAIL drop %d: %v", i, err)
+		}
+	}
+	if _, err := rd.Exec(fmt.Sprintf("select s3db_refresh('rd%d_0')", run)); err != nil {
+		return "FAIL after the first users of the in-memory bucket dropped their tables, another connection's table cannot refresh: " + err.Error()
+	}
+	if c := count(rd, fmt.Sprintf("rd%d_0", run)); c != 1 {
+		return fmt.Sprintf("FAIL after the first users of the in-memory bucket dropped their tables, another connection reads %d rows (expected 1)", c)
+	}
+	nw, err := sql.Open("sqlite3", ":memory:")
+	if err != nil {
+		return "FAIL open: " + err.Error()
+	}
+	nw.SetMaxOpenConns(1)
+	defer nw.Close()
+	if _, err := nw.Exec(fmt.Sprintf("create virtual table nw%d using s3db (s3_prefix='im%d_new', columns='a primary key, b')", run, run)); err != nil {
+		return "FAIL after the first users of the in-memory bucket dropped their tables, no in-memory table can be created: " + err.Error()
+	}
+	if _, err := nw.Exec(fmt.Sprintf("insert into nw%d values (1, 'row')", run)); err != nil {
+		return "FAIL insert into a new in-memory table: " + err.Error()
+	}
+	if c := count(nw, fmt.Sprintf("nw%d", run)); c != 1 {
+		return fmt.Sprintf("FAIL new in-memory table holds %d rows (expected 1)", c)
+	}
 	return "ok"
 }
 
@@ -686,6 +715,128 @@ func probeVacuumReclaims() string {
 	if len(times) != 30 {
 		return fmt.Sprintf("FAIL the vacuumed tree holds %d entries for 30 live rows: %d delete markers older than the cutoff were not reclaimed", len(times), len(times)-30)
 	}
+	// "before the cutoff" is a comparison of the two times given, wherever the wall clock stands:
+	// rows deleted at a write time in 2050 are reclaimed by a vacuum with the cutoff 2100
+	for _, s := range []string{"update s3db_conn set write_time='2050-01-01 00:00:00'", "delete from " + t + " where k % 3 = 0"} {
+		if _, err := db.Exec(s); err != nil {
+			return "FAIL " + s + ": " + err.Error()
+		}
+	}
+	var verr sql.NullString
+	if err := db.QueryRow("select vacuum_error from s3db_vacuum(?, ?)", t, "2100-01-01 00:00:00").Scan(&verr); err != nil || (verr.Valid && verr.String != "") {
+		return fmt.Sprintf("FAIL vacuum: %v %q", err, verr.String)
+	}
+	if err := db.QueryRow("select count(*) from " + t).Scan(&n); err != nil || n != 20 {
+		return fmt.Sprintf("FAIL %d live rows after the second vacuum (20 expected) %v", n, err)
+	}
+	times, err = rowTimes(px, bucket, "t0")
+	if err != nil {
+		return "FAIL read: " + err.Error()
+	}
+	if len(times) != 20 {
+		return fmt.Sprintf("FAIL rows deleted at a write time in 2050 and vacuumed with the cutoff 2100: the tree holds %d entries for 20 live rows", len(times))
+	}
+	return "ok"
+}
+
+// C09 / C14: a vacuum that cannot read another writer's current version (its version object, or
+// its nodes) must not go on and delete what that version still needs: whatever the vacuum
+// reports, once the fault has cleared a fresh connection reads every row of both writers
+func probeVacuumUnderReadFault(kind string) string {
+	px := newProxy()
+	bucket := "pvf"
+	if err := px.backend.CreateBucket(bucket); err != nil {
+		return "FAIL setup: " + err.Error()
+	}
+	open := func() (*sql.DB, string, error) {
+		db, err := sql.Open("sqlite3", ":memory:")
+		if err != nil {
+			return nil, "", err
+		}
+		db.SetMaxOpenConns(1)
+		t := fmt.Sprintf("pvf_t%d", nextCounter())
+		_, err = db.Exec(fmt.Sprintf("create virtual table %s using s3db(s3_bucket='%s', s3_endpoint='%s', s3_prefix='t0', entries_per_node=4, columns='k primary key, v')", t, bucket, px.url))
+		return db, t, err
+	}
+	list := func(prefix string) map[string]bool {
+		m := map[string]bool{}
+		p := gofakes3.NewPrefix(aws.String(prefix), nil)
+		ol, err := px.backend.ListBucket(bucket, &p, gofakes3.ListBucketPage{})
+		if err == nil {
+			for _, c := range ol.Contents {
+				m[c.Key] = true
+			}
+		}
+		return m
+	}
+	a, ta, err := open()
+	if err != nil {
+		return "FAIL open A: " + err.Error()
+	}
+	defer a.Close()
+	if _, err := a.Exec("begin"); err != nil {
+		return "FAIL " + err.Error()
+	}
+	for i := 0; i < 40; i++ {
+		if _, err := a.Exec(fmt.Sprintf("insert into %s values(%d,%d)", ta, i, i)); err != nil {
+			return "FAIL insert: " + err.Error()
+		}
+	}
+	if _, err := a.Exec("commit"); err != nil {
+		return "FAIL commit: " + err.Error()
+	}
+	b, tb, err := open()
+	if err != nil {
+		return "FAIL open B: " + err.Error()
+	}
+	defer b.Close()
+	v0, n0 := list("t0/s3db-rows/root/current/"), list("t0/s3db-rows/node/")
+	if _, err := b.Exec(fmt.Sprintf("insert into %s values(1000,1000)", tb)); err != nil {
+		return "FAIL insert B: " + err.Error()
+	}
+	fail := map[string]bool{}
+	if kind == "version" {
+		for k := range list("t0/s3db-rows/root/current/") {
+			if !v0[k] {
+				fail[k] = true
+			}
+		}
+	} else {
+		for k := range list("t0/s3db-rows/node/") {
+			if !n0[k] {
+				fail[k] = true
+			}
+		}
+	}
+	if len(fail) == 0 {
+		return "FAIL probe: the second writer stored no " + kind + " object of its own"
+	}
+	if _, err := a.Exec(fmt.Sprintf("update %s set v = v + 100", ta)); err != nil {
+		return "FAIL rewrite: " + err.Error()
+	}
+	px.mu.Lock()
+	px.plan = func(idx int, k, key string) int {
+		if k == "G" && fail[key] {
+			return fErr
+		}
+		return fOK
+	}
+	px.mu.Unlock()
+	var verr sql.NullString
+	qerr := a.QueryRow("select vacuum_error from s3db_vacuum(?, ?)", ta, "2100-01-01 00:00:00").Scan(&verr)
+	px.mu.Lock()
+	px.plan = nil
+	px.mu.Unlock()
+	reported := qerr != nil || (verr.Valid && verr.String != "")
+	c, tc, err := open()
+	if err != nil {
+		return fmt.Sprintf("FAIL after a vacuum during which the other writer's %s object could not be read (vacuum reported an error: %v), the table cannot be opened any more: %v", kind, reported, err)
+	}
+	defer c.Close()
+	var n, sum int
+	if err := c.QueryRow("select count(*), sum(v) from " + tc).Scan(&n, &sum); err != nil || n != 41 {
+		return fmt.Sprintf("FAIL after a vacuum during which the other writer's %s object could not be read (vacuum reported an error: %v), a fresh connection reads %d rows, %v (41 expected)", kind, reported, n, err)
+	}
 	return "ok"
 }
 
@@ -816,4 +967,185 @@ func probeDropKeepsAttributes() string {
 		}
 	}
 	return "ok"
+}
+
+// C02: the rule holds for every write time SQLite's format can spell, years before 1970 included:
+// a row inserted at a time in 1960 and deleted at a later time in 1965 is gone (on the writer and
+// for a connection that merges both), and an UPDATE in 1962 of a row inserted in 1960 is seen
+func probeBackdated() string {
+	px := getProxy()
+	bucket := fmt.Sprintf("pbd%d", nextCounter())
+	if err := px.backend.CreateBucket(bucket); err != nil {
+		return "FAIL setup: " + err.Error()
+	}
+	db, err := sql.Open("sqlite3", ":memory:")
+	if err != nil {
+		return "FAIL " + err.Error()
+	}
+	defer db.Close()
+	db.SetMaxOpenConns(1)
+	t := fmt.Sprintf("pbd_t%d", nextCounter())
+	steps := []string{
+		fmt.Sprintf("create virtual table %s using s3db(s3_bucket='%s', s3_endpoint='%s', s3_prefix='t0', columns='k primary key, v')", t, bucket, px.url),
+		"update s3db_conn set write_time='1960-01-01 00:00:00'",
+		"insert into " + t + " values(1,'a'),(2,'b')",
+		"update s3db_conn set write_time='1962-01-01 00:00:00'",
+		"update " + t + " set v='b2' where k=2",
+		"update s3db_conn set write_time='1965-01-01 00:00:00'",
+		"delete from " + t + " where k=1",
+	}
+	for _, s := range steps {
+		if _, err := db.Exec(s); err != nil {
+			return "FAIL " + s + ": " + err.Error()
+		}
+	}
+	check := func(d *sql.DB, tn, who string) string {
+		rows, err := d.Query("select k, v from " + tn + " order by k")
+		if err != nil {
+			return "FAIL select: " + err.Error()
+		}
+		defer rows.Close()
+		got := ""
+		for rows.Next() {
+			var k int
+			var v sql.NullString
+			rows.Scan(&k, &v)
+			got += fmt.Sprintf("%d=%s;", k, v.String)
+		}
+		if got != "2=b2;" {
+			return "FAIL " + who + " reads " + got + " after INSERT 1,2 @1960, UPDATE 2 @1962, DELETE 1 @1965 (expected 2=b2;)"
+		}
+		return ""
+	}
+	if r := check(db, t, "the writer"); r != "" {
+		return r
+	}
+	rd, err := sql.Open("sqlite3", ":memory:")
+	if err != nil {
+		return "FAIL " + err.Error()
+	}
+	defer rd.Close()
+	rd.SetMaxOpenConns(1)
+	t2 := fmt.Sprintf("pbd_r%d", nextCounter())
+	if _, err := rd.Exec(fmt.Sprintf("create virtual table %s using s3db(readonly, s3_bucket='%s', s3_endpoint='%s', s3_prefix='t0', columns='k primary key, v')", t2, bucket, px.url)); err != nil {
+		return "FAIL reader: " + err.Error()
+	}
+	if r := check(rd, t2, "a fresh reader"); r != "" {
+		return r
+	}
+	return "ok"
+}
+
+// C12: a changes table declared with from= only follows the table: "to" is the current version
+// at the time of EACH query, not the one of the first query
+func probeChangesFollowsCurrent() string {
+	px := getProxy()
+	bucket := fmt.Sprintf("pcf%d", nextCounter())
+	if err := px.backend.CreateBucket(bucket); err != nil {
+		return "FAIL setup: " + err.Error()
+	}
+	db, err := sql.Open("sqlite3", ":memory:")
+	if err != nil {
+		return "FAIL " + err.Error()
+	}
+	defer db.Close()
+	db.SetMaxOpenConns(1)
+	t := fmt.Sprintf("pcf_t%d", nextCounter())
+	for _, s := range []string{
+		fmt.Sprintf("create virtual table %s using s3db(s3_bucket='%s', s3_endpoint='%s', s3_prefix='t0', columns='k primary key, v')", t, bucket, px.url),
+		"insert into " + t + " values(1,1)",
+	} {
+		if _, err := db.Exec(s); err != nil {
+			return "FAIL " + s + ": " + err.Error()
+		}
+	}
+	var ver string
+	if err := db.QueryRow(fmt.Sprintf("select s3db_version('%s')", t)).Scan(&ver); err != nil {
+		return "FAIL version: " + err.Error()
+	}
+	ch := fmt.Sprintf("pcf_c%d", nextCounter())
+	if _, err := db.Exec(fmt.Sprintf("create virtual table %s using s3db_changes(table='%s', from='%s')", ch, t, ver)); err != nil {
+		return "FAIL create changes table: " + err.Error()
+	}
+	keys := func() (string, error) {
+		rows, err := db.Query("select k from " + ch + " order by k")
+		if err != nil {
+			return "", err
+		}
+		defer rows.Close()
+		got := ""
+		for rows.Next() {
+			var k int
+			rows.Scan(&k)
+			got += fmt.Sprintf("%d;", k)
+		}
+		return got, rows.Err()
+	}
+	if got, err := keys(); err != nil || got != "" {
+		return fmt.Sprintf("FAIL changes since the current version: %q %v (expected none)", got, err)
+	}
+	if _, err := db.Exec("insert into " + t + " values(2,2)"); err != nil {
+		return "FAIL insert: " + err.Error()
+	}
+	if got, err := keys(); err != nil || got != "2;" {
+		return fmt.Sprintf("FAIL after INSERT 2 the changes since the recorded version are %q %v (expected 2;)", got, err)
+	}
+	if _, err := db.Exec("update " + t + " set v=11 where k=1"); err != nil {
+		return "FAIL update: " + err.Error()
+	}
+	if got, err := keys(); err != nil || got != "1;2;" {
+		return fmt.Sprintf("FAIL after UPDATE 1 the changes since the recorded version are %q %v (expected 1;2;)", got, err)
+	}
+	if _, err := db.Exec("delete from " + t + " where k=2"); err != nil {
+		return "FAIL delete: " + err.Error()
+	}
+	if got, err := keys(); err != nil || got != "1;" {
+		return fmt.Sprintf("FAIL after DELETE 2 the changes since the recorded version are %q %v (expected 1;)", got, err)
+	}
+	return "ok"
+}
+
+// C18: a stored node object cut to ZERO bytes is a modification like any other: it is reported as
+// an error, the version that needs it is not silently left out
+func probeEmptiedNode() string {
+	st := newFakeS3()
+	cfg := kv.Config{
+		Storage:       &kv.S3BucketInfo{EndpointURL: "fake", BucketName: "b", Prefix: "cut"},
+		KeysLike:      "key",
+		ValuesLike:    "value",
+		NodeEncryptor: kv.V1NodeEncryptor([]byte("passphrase")),
+	}
+	ctx := context.Background()
+	db, err := kv.Open(ctx, st, cfg, kv.OpenOptions{}, time.Unix(1700000000, 0))
+	if err != nil {
+		return "FAIL open: " + err.Error()
+	}
+	for i := 0; i < 3; i++ {
+		if err := db.Set(ctx, time.Unix(1700000000+int64(i), 0), fmt.Sprintf("k%d", i), fmt.Sprintf("v%d", i)); err != nil {
+			return "FAIL set: " + err.Error()
+		}
+	}
+	if _, err := db.Commit(ctx); err != nil {
+		return "FAIL commit: " + err.Error()
+	}
+	n := 0
+	for _, k := range st.keys("cut/node/") {
+		st.mu.Lock()
+		st.objs["cut/node/"+k] = []byte{}
+		st.mu.Unlock()
+		n++
+	}
+	if n == 0 {
+		return "FAIL probe: no node object stored"
+	}
+	db2, err := kv.Open(ctx, st, cfg, kv.OpenOptions{ReadOnly: true}, time.Unix(1700000100, 0))
+	if err != nil {
+		return "ok"
+	}
+	var v string
+	found, err := db2.Get(ctx, "k1", &v)
+	if err != nil {
+		return "ok"
+	}
+	return fmt.Sprintf("FAIL with every node object cut to zero bytes the table opens without an error and k1 is found=%v %q", found, v)
 }
